@@ -22,7 +22,8 @@ def gen(rng, nclasses=None, features='main'):
                 kinds += ['cscalar', 'rref']
             k = rng.choice(kinds)
             if k == 'class':
-                fields.append({'ty': ('class', rng.randrange(i)), 'init': False, 'static': False})
+                # the member's class may be spelled through a typedef or a using alias (transparent for every trait)
+                fields.append({'ty': ('class', rng.randrange(i)), 'init': False, 'static': False, 'alias': rng.choice([None, None, 'typedef', 'using'])})
             elif k == 'cscalar_init':
                 fields.append({'ty': 'cscalar', 'init': True, 'static': False})
             elif k == 'static':
@@ -118,6 +119,8 @@ def render(cs, prefix='K'):
     for i, c in enumerate(cs):
         name = '%s%d' % (prefix, i)
         bases = ', '.join('%s%s %s%d' % ('virtual ' if x['virtual'] else '', ACC[x['access']], prefix, x['cls']) for x in c['bases'])
+        aliases = []
+        at = len(L)
         L.append('struct %s%s {' % (name, (' : ' + bases) if bases else ''))
         L.append('public:')
         for k, f in enumerate(c['fields']):
@@ -133,6 +136,10 @@ def render(cs, prefix='K'):
                 L.append('  int &%s;' % fn)
             elif ty == 'rref':
                 L.append('  int &&%s;' % fn)
+            elif f.get('alias'):
+                al = '%s%d_%s_t' % (prefix, i, fn)
+                aliases.append(('typedef %s%d %s;' if f['alias'] == 'typedef' else 'using %s = %s%d;') % ((prefix, ty[1], al) if f['alias'] == 'typedef' else (al, prefix, ty[1])))
+                L.append('  %s %s;' % (al, fn))
             else:
                 L.append('  %s%d %s;' % (prefix, ty[1], fn))
         for m in c['methods']:
@@ -154,6 +161,7 @@ def render(cs, prefix='K'):
         if c['dtor']:
             sp(c['dtor'], '%s~%s()%s' % ('virtual ' if c['dtor']['virtual'] else '', name, ' = 0' if c['dtor'].get('pure') else ''))
         L.append('};')
+        L[at:at] = aliases          # the aliases are declared in front of the class that uses them
     return '\n'.join(L) + '\n'
 
 
